@@ -9,6 +9,7 @@ import Rare.Proofs.C19Pool
 import Rare.Proofs.C19Vars
 import Rare.Proofs.C19IntText
 import Rare.Proofs.C11Log
+import Rare.Proofs.C19Trig
 import Rare.Gen.C19
 import Rare.Gen.Access
 /-!
@@ -849,10 +850,11 @@ theorem taint_same_formulas (L : Libm) (s : Bytes) :
     (∃ t eT, compile arithT s = .ok (t, eT)) ↔ (∃ t e, compile (arith L) s = .ok (t, e)) :=
   compile_ok_iff L s
 
-/-- `sin(x)+1` is tainted, `sqrt(x)+1`, `x^3` and `x^-2` are not (x = 2.0). -/
+/-- `exp(x)+1` and `x^0.3` are tainted, `sqrt(x)+1`, `x^3` and `x^-2` are not (x = 2.0); since round 4c `sin` is not
+    either. -/
 example :
     let bT : Binding TV := ⟨fun _ => some zeroP, fun _ => some (ofBits 0x4000000000000000)⟩
-    (match compile arithT (ascii "sin(x)+1"), compile arithT (ascii "sqrt(x)+1"), compile arithT (ascii "x^3 - x^-2"),
+    (match compile arithT (ascii "exp(x)+1"), compile arithT (ascii "sqrt(x)+1"), compile arithT (ascii "x^3 - x^-2"),
            compile arithT (ascii "x^0.3") with
      | .ok (_, e1), .ok (_, e2), .ok (_, e3), .ok (_, e4) =>
        decide (e1.eval arithT bT = none) && decide (e2.eval arithT bT = some (ofBits 0x4003504F333F9DE6)) &&
@@ -899,8 +901,8 @@ example :
 /-- **Which unary functions are exact**: for every key of `uniOps` bound to `math.X`, the model computes
     `X`'s IEEE-determined definition when `X` is `Abs`, `Sqrt`, `Floor`, `Ceil` or `Round` (`goMathExact`:
     sign-bit clear, correctly rounded square root, the integral roundings, half away from zero), the
-    operation-by-operation mirror of the Go routine when `X` is `Log`, `Log10` or `Log2` (round 4b), and leaves
-    it to the parameter `L` otherwise – keyed by the GO function the table in /repo names, so
+    operation-by-operation mirror of the Go routine when `X` is `Log`, `Log10` or `Log2` (round 4b) or `Sin`, `Cos`,
+    `Tan`, `Asin`, `Acos`, `Atan`, `Exp2` (round 4c), and leaves it to the parameter `L` otherwise (`Exp` only) – keyed by the GO function the table in /repo names, so
     `"floor": math.Ceil` or `"log": math.Log2` would break this. -/
 theorem exact_functions_named (L : Libm) :
     ∀ d ∈ Gen.C19.uniDesc, d.2.1 = "fn" →
@@ -1228,6 +1230,123 @@ theorem log_platform :
       (Rare.C11.Log.log2 x).bits == p.2.2.2) = true := by
   decide +kernel
 
+/-! ### Round 4c: the trigonometric functions and `exp2` are part of the model; only `exp` stays a parameter -/
+
+/-- **`sin cos tan asin acos atan exp2` are computed, not assumed.**  In every formula and for every behaviour `L`
+    of what is left of libm, these seven keys of `uniOps` are the fixed sequences of binary64 operations Go executes
+    on the platform of the check: `math.Sin` … `math.Atan`, `math.Exp2` have no assembly routine on amd64 and the
+    compiler fuses no multiply-add there, so they are `sin.go`, `tan.go`, `atan.go`, `asin.go`, `trig_reduce.go`,
+    `exp.go` as written (Cephes polynomials; Cody-Waite reduction by π/4 in three parts below 2^29, Payne-Hanek on
+    1216 bits of 4/π from there to MaxFloat64; `expmulti` + `Ldexp`), mirrored operation by operation in
+    `Model/C19Trig.lean` and `IEEE.exp2`.  Consequences for ALL operands: `sin`, `tan`, `atan`, `asin` of ±0 are the
+    operand itself (sign kept); `sin`, `cos`, `tan` of ±Inf are NaN and of NaN are NaN; `asin` outside [-1, 1] is
+    NaN; `exp2` of NaN is NaN, of +Inf +Inf, of -Inf +0, above 1023.9999999999999 +Inf, below -1074 +0. -/
+theorem trig_functions_f64 (L : Libm) (x : F64) :
+    (arith L).un (ascii "sin") x = Trig.sin x ∧ (arith L).un (ascii "cos") x = Trig.cos x ∧
+    (arith L).un (ascii "tan") x = Trig.tan x ∧ (arith L).un (ascii "asin") x = Trig.asin x ∧
+    (arith L).un (ascii "acos") x = Trig.acos x ∧ (arith L).un (ascii "atan") x = Trig.atan x ∧
+    (arith L).un (ascii "exp2") x = exp2 x ∧
+    (x.mag = 0 → (arith L).un (ascii "sin") x = x ∧ (arith L).un (ascii "tan") x = x ∧
+      (arith L).un (ascii "atan") x = x ∧ (arith L).un (ascii "asin") x = x) ∧
+    (x.isInf = true → (arith L).un (ascii "sin") x = F64.nan ∧ (arith L).un (ascii "cos") x = F64.nan ∧
+      (arith L).un (ascii "tan") x = F64.nan) ∧
+    (x.isNaN = true → ((arith L).un (ascii "sin") x).isNaN = true ∧ ((arith L).un (ascii "cos") x).isNaN = true ∧
+      ((arith L).un (ascii "tan") x).isNaN = true ∧ ((arith L).un (ascii "exp2") x).isNaN = true) ∧
+    (x.isNaN = false → lt one (F64.abs x) = true → ((arith L).un (ascii "asin") x).isNaN = true) ∧
+    (x.isInf = true → x.sign = false → (arith L).un (ascii "exp2") x = x) ∧
+    (x.isInf = true → x.sign = true → (arith L).un (ascii "exp2") x = zeroP) ∧
+    (x.isNaN = false → x.isInf = false → lt exp2Overflow x = true → (arith L).un (ascii "exp2") x = inf false) ∧
+    (x.isNaN = false → x.isInf = false → lt x exp2Underflow = true → (arith L).un (ascii "exp2") x = zeroP) := by
+  have e1 : ascii "sin" = [115, 105, 110] := by decide +kernel
+  have e2 : ascii "cos" = [99, 111, 115] := by decide +kernel
+  have e3 : ascii "tan" = [116, 97, 110] := by decide +kernel
+  have e4 : ascii "asin" = [97, 115, 105, 110] := by decide +kernel
+  have e5 : ascii "acos" = [97, 99, 111, 115] := by decide +kernel
+  have e6 : ascii "atan" = [97, 116, 97, 110] := by decide +kernel
+  have e7 : ascii "exp2" = [101, 120, 112, 50] := by decide +kernel
+  rw [e1, e2, e3, e4, e5, e6, e7, un_sin, un_cos, un_tan, un_asin, un_acos, un_atan, un_exp2]
+  obtain ⟨x1, x2, x3, x4, x5⟩ := exp2_special x
+  refine ⟨rfl, rfl, rfl, rfl, rfl, rfl, rfl, ?_, Trig.trig_inf, ?_, ?_, x2, x3, ?_, ?_⟩
+  · intro h; obtain ⟨a, b, c, d⟩ := Trig.sin_zero h; exact ⟨a, b, c, d⟩
+  · intro h; obtain ⟨a, b, c⟩ := Trig.trig_nan h; exact ⟨a, b, c, x1 h⟩
+  · intro hn h
+    rcases Trig.asin_outside hn h with e | e <;> rw [e]
+    · decide
+    · decide
+  · intro hn hi h; exact x4 hn h hi
+  · intro hn hi h; exact x5 hn h hi
+
+/-- **The symmetries hold bit for bit, for every operand** – the code splits the sign off before it reduces the
+    argument, so they are facts about the source, not about accuracy: `sin(-x) = -sin(x)`, `tan(-x) = -tan(x)`,
+    `asin(-x) = -asin(x)` (or both sides NaN: NaN and ±Inf operands, `asin` outside [-1, 1]), `atan(-x) = -atan(x)`
+    and `cos(-x) = cos(x)` exactly.  So `{! sin(-[0]) == -sin([0])}` prints 1 for every finite binding, however
+    large (Payne-Hanek range included), and `{! cos(-x) - cos(x)}` prints 0. -/
+theorem trig_symmetries_f64 (L : Libm) (x : F64) :
+    Trig.Same ((arith L).un (ascii "sin") ((arith L).un [45] x)) ((arith L).un [45] ((arith L).un (ascii "sin") x)) ∧
+    Trig.Same ((arith L).un (ascii "tan") ((arith L).un [45] x)) ((arith L).un [45] ((arith L).un (ascii "tan") x)) ∧
+    (arith L).un (ascii "cos") ((arith L).un [45] x) = (arith L).un (ascii "cos") x ∧
+    (x.isNaN = false →
+      (arith L).un (ascii "atan") ((arith L).un [45] x) = (arith L).un [45] ((arith L).un (ascii "atan") x) ∧
+      Trig.Same ((arith L).un (ascii "asin") ((arith L).un [45] x)) ((arith L).un [45] ((arith L).un (ascii "asin") x))) := by
+  have e1 : ascii "sin" = [115, 105, 110] := by decide +kernel
+  have e2 : ascii "cos" = [99, 111, 115] := by decide +kernel
+  have e3 : ascii "tan" = [116, 97, 110] := by decide +kernel
+  have e4 : ascii "asin" = [97, 115, 105, 110] := by decide +kernel
+  have e6 : ascii "atan" = [97, 116, 97, 110] := by decide +kernel
+  simp only [e1, e2, e3, e4, e6, un_sin, un_cos, un_tan, un_asin, un_atan, un_neg]
+  exact ⟨Trig.sin_neg x, Trig.tan_neg x, Trig.cos_neg x, fun hn => ⟨Trig.atan_neg x hn, Trig.asin_neg x hn⟩⟩
+
+/-- `4*atan(1)` is π bit for bit (0x400921FB54442D18) and so is `acos(-1)`; `sin(0)`, `cos(0)`, `exp2(10)`,
+    `exp2(-1074)` (the smallest subnormal), `exp2(-1075)` (0) and `exp2(1024)` (+Inf); `asin(2)` is NaN; `sin(1e22)`
+    goes through the Payne-Hanek reduction and is -0.8522008497671889 (the real sine there is -0.85220084976718880…;
+    a routine without that reduction answers garbage); `cos(x)^2 + sin(x)^2` at x = 1 rounds to exactly 1. -/
+example : evalF64 (ascii "4*atan(1)") 0 = some 0x400921FB54442D18 ∧ evalF64 (ascii "acos(-1)") 0 = some 0x400921FB54442D18 ∧
+    evalF64 (ascii "sin(0)") 0 = some 0 ∧ evalF64 (ascii "cos(0)") 0 = some one.bits ∧
+    evalF64 (ascii "exp2(10)") 0 = some (ofInt 1024).bits ∧ evalF64 (ascii "exp2(-1074)") 0 = some 1 ∧
+    evalF64 (ascii "exp2(-1075)") 0 = some 0 ∧ evalF64 (ascii "exp2(1024)") 0 = some (inf false).bits ∧
+    evalF64 (ascii "asin(2)") 0 = some F64.nan.bits ∧
+    evalF64 (ascii "sin(x)") 0x4480F0CF064DD592 = some 0xBFEB453AB76BF398 ∧
+    evalF64 (ascii "cos(x)^2 + sin(x)^2") one.bits = some one.bits := by
+  decide +kernel
+
+/-- **What is left of the parameter.**  Of all the functions `uniOps` names, the value of the model depends on the
+    behaviour `L` of libm for `exp` only (`math.Exp` on amd64 is an assembly routine that selects its instruction
+    sequence by a CPU feature flag at run time, so the source does not determine it): for every other entry of the
+    table in /repo two arithmetics with different `L` agree on every operand; `exp` does depend on it. -/
+theorem libm_parameter_is_exp_only :
+    (∀ d ∈ Gen.C19.uniDesc, d.2.1 = "fn" → d.1 ≠ ascii "exp" → ∀ (L L' : Libm), (prim L).fn d.1 = (prim L').fn d.1) ∧
+    (∃ (L L' : Libm) (x : F64), (arith L).un (ascii "exp") x ≠ (arith L').un (ascii "exp") x) := by
+  constructor
+  · intro d hd hk hne L L'
+    simp only [Gen.C19.uniDesc, List.mem_cons, List.not_mem_nil, or_false] at hd
+    rcases hd with rfl | rfl | rfl | rfl | rfl | rfl | rfl | rfl | rfl | rfl | rfl | rfl | rfl | rfl | rfl | rfl | rfl | rfl <;>
+      first | (exact absurd hk (by decide)) | (exact absurd (by decide +kernel) hne) |
+        (funext x; simp (config := {decide := true}) [prim, exactFn])
+  · refine ⟨libm0, ⟨fun _ _ => one, fun x _ => x⟩, zeroP, ?_⟩
+    have e : ascii "exp" = [101, 120, 112] := by decide +kernel
+    rw [e]
+    simp [arith, arithOf, unOf, prim, exactFn, libm0]
+    decide
+
+/-- **The platform the trigonometric model mirrors is the platform of the check** (`Gen.C19.trigProbes`: computed by
+    the toolchain the harness is built with, on every run): at 45 probe arguments that take every branch of the
+    routines – each octant of `sin`/`cos`, tan's reciprocal and tiny-argument branches, the Cody-Waite path and the
+    Payne-Hanek path (2^29 itself, 1e22, MaxFloat64), satan's three ranges, asin's `x > 0.7`, the argument outside
+    [-1, 1], `exp2` with k rounded up and down, results in the subnormal range and at the overflow bound, ±0 and
+    Inf – `math.Sin/Cos/Tan/Asin/Acos/Atan/Exp2` (looked up by GO name, as `exact_functions_named` binds them)
+    returned bit for bit what the model computes (NaN results canonical).  A toolchain in which one of them is
+    another routine (an assembly version, fused multiply-add) breaks this theorem before any formula is compared. -/
+theorem trig_platform :
+    Gen.C19.goarch = "amd64" ∧ Gen.C19.trigProbes.length ≥ 40 ∧
+    (Gen.C19.trigProbes.all fun p =>
+      match goMathExact p.1 with
+      | some f =>
+        let y := f (ofBits (UInt64.ofNat p.2.1))
+        (if y.isNaN then F64.nan.bits else y.bits) == p.2.2
+      | none => false) = true := by
+  decide +kernel
+
 end ieee
+
 
 end Rare.C19
